@@ -770,6 +770,55 @@ impl<'a> Rewriter<'a> {
         false
     }
 
+    /// R28: statement-position `X.iter().for_each(|p| B);` / `X.iter_mut().for_each(..)` / `X.into_iter().for_each(..)` /
+    /// `X.drain(..).for_each(..)` with X a place expression (path / field chain) become loops of the dialect; the closure body stays the
+    /// repository's text. The loop takes the next loop ordinal (its invariants come from `//@LOOP n` like any other loop's).
+    fn try_foreach_stmt(&mut self, e: &Expr, stmt_span: Span) -> bool {
+        fn is_place(e: &Expr) -> bool {
+            match e { Expr::Path(_) => true, Expr::Field(f) => is_place(&f.base), _ => false }
+        }
+        let fe = match e { Expr::MethodCall(m) if m.method == "for_each" && m.args.len() == 1 => m, _ => return false };
+        let c = match &fe.args[0] { Expr::Closure(c) if c.inputs.len() == 1 => c, _ => return false };
+        let it = match &*fe.receiver { Expr::MethodCall(m) => m, _ => return false };
+        let kind = it.method.to_string();
+        let full_drain = kind == "drain" && it.args.len() == 1 && norm_ws(self.text(it.args[0].span())) == "..";
+        if !((matches!(kind.as_str(), "iter" | "iter_mut" | "into_iter") && it.args.is_empty()) || full_drain) { return false; }
+        if !is_place(&it.receiver) { return false; }
+        let by_index = kind == "iter" || kind == "iter_mut";
+        let simple_pat = matches!(&c.inputs[0], syn::Pat::Ident(pi) if pi.by_ref.is_none() && pi.subpat.is_none());
+        if by_index && !simple_pat { return false; }
+        let pat = self.text(c.inputs[0].span()).to_string();
+        let recv = norm_ws(self.text(it.receiver.span()));
+        let n = self.loop_no;
+        self.loop_no += 1;
+        self.loop_heads.push(format!("foreach:{}:{}", if kind == "iter_mut" { "iter" } else { kind.as_str() }, recv));
+        let inv = self.spec.loops.get(&n).cloned().unwrap_or_default();
+        if self.spec.loops.contains_key(&n) { self.used_loops.push(n); }
+        let (ss, se) = self.src.range(stmt_span);
+        let (rs, re) = self.src.range(it.receiver.span());
+        let (bs, be) = self.src.range(c.body.span());
+        if by_index {
+            let m = if kind == "iter_mut" { "mut " } else { "" };
+            self.edit(ss, rs, "{ let mut fe_i__: usize = 0; while fe_i__ < ".to_string(), 0);
+            self.edit(re, bs, format!(".len()\n{}\n{{ let {} = &{}{}[fe_i__]; ", inv, pat, m, recv), 0);
+            self.edit(be, se, "; fe_i__ = fe_i__ + 1; } }".to_string(), 0);
+        } else if full_drain {
+            self.edit(ss, rs, format!("for {} in take_all__(&mut ", pat), 0);
+            self.edit(re, bs, format!(")\n{}\n{{ ", inv), 0);
+            self.edit(be, se, "; }".to_string(), 0);
+        } else {
+            self.edit(ss, rs, format!("for {} in ", pat), 0);
+            self.edit(re, bs, format!("\n{}\n{{ ", inv), 0);
+            self.edit(be, se, "; }".to_string(), 0);
+        }
+        let (cs, _) = self.src.range(c.span());
+        self.consumed_closures.push(cs);
+        self.notes.push(format!("R28 `{}.{}().for_each(..)` at {}:{} rewritten as a loop", recv, kind, self.src.rel, self.src.line_of(ss)));
+        self.visit_expr(&it.receiver);
+        self.visit_expr(&c.body);
+        true
+    }
+
     fn process_one_stmt(&mut self, block: &syn::Block, i: usize, n: usize, st: &Stmt) {
         {
             let (ss, se) = self.src.range(st.span());
@@ -950,6 +999,9 @@ impl<'a, 'ast> Visit<'ast> for Rewriter<'a> {
         match st {
             Stmt::Expr(e, Some(_)) => {
                 if self.try_map_stmt(e, st.span()) {
+                    return;
+                }
+                if self.try_foreach_stmt(e, st.span()) {
                     return;
                 }
             }
